@@ -2,7 +2,7 @@
 import itertools
 import json
 
-from vlib.valuecheck import build_cases, evaluate, replay, anon_struct_path  # noqa: F401
+from vlib.valuecheck import build_cases, evaluate, replay, anon_struct_path, collide_root  # noqa: F401
 from vlib.kitchen import run_cases
 
 PROPS_FILE = "Props/C04.v"
@@ -59,6 +59,31 @@ def systematic():
     return out
 
 
+def shared_names():
+    """the same key names at every level, with different required sets per level; the holder of the nested object sorts between its siblings,
+    and a second nested object comes last: a requirement of one level must not leak into, or be cancelled by, another level"""
+    out = []
+    leaf = lambda: {"a": {"type": "string"}, "m": {"type": "integer"}, "z": {"type": "boolean"}}      # noqa: E731
+    for rp in ([], ["a"], ["z"], ["a", "m", "z"], ["h", "z"], ["h", "a", "m"], ["m", "zz"]):
+        for rn in ([], ["a"], ["z"], ["m"], ["a", "m", "z"]):
+            for rn2 in (["z"], []):
+                def mk(req):
+                    o = {"type": "object", "properties": leaf()}
+                    if req:
+                        o["required"] = list(req)
+                    return o
+                props = leaf()
+                props["h"] = mk(rn)
+                props["zz"] = {"type": "object", "properties": dict(leaf(), h=mk(rn2))}
+                if rn:
+                    props["zz"]["required"] = list(rn)
+                root = {"type": "object", "properties": props}
+                if rp:
+                    root["required"] = list(rp)
+                out.append(root)
+    return out
+
+
 def multi_file_cases():
     """two schema files in one run, each with its own definition of the same name used inside allOf (also referencing it plainly runs into the recorded finding C01-alias-collides): the required
     keys of each file's own definition are enforced, in both argument orders"""
@@ -94,8 +119,12 @@ CLASSES = {"required", "required-default", "optional-absent", "null-allowed", "v
 def run(ctx):
     ctx.proof_step(PROPS_FILE)
     sysm = systematic()
+    shared = shared_names()
     if ctx.tier == "quick":
         sysm = sysm[::2]
+        shared = shared[ctx.rng.randrange(3)::3]
+    ob = lambda req: {"type": "object", "properties": {"p": {"type": "string"}, "q": {"type": "string"}}, "required": req}      # noqa: E731
+    sysm = sysm + shared + [collide_root(ob(["p"]), ob(["q"]), required=True), collide_root(ob(["p", "q"]), ob(["p"])), collide_root(ob(["q"]), ob(["p", "q"]), key="w")]
     n = 30 if ctx.tier == "quick" else 400
     cases = build_cases(ctx, len(sysm) + n, ["object", "ref", "array"], CLASSES, "c04x", extra_schemas=sysm, docs_per=2 if ctx.tier == "quick" else 4)
     # a required key that has a default is exempt (the property says so): the oracle expects acceptance there
